@@ -258,7 +258,9 @@ Proof. exact deployed_pipeline. Qed.
 (** the guaranteed-ticket contracts gt1, mig, lgt (v1 allocation) and gt2 (v2 allocation): from a
     deployment with an ESDT launchpad token through allocation with guarantees (v1: positive sizes),
     deposit, confirmation, pause / unpause, tokens-per-ticket, timeline and support transactions,
-    then the three selection stages, each interrupted arbitrarily *)
+    blacklisting (with refunds and release of the guarantees), gt2 refunds and un-blacklisting
+    (re-reserving the guarantees) in any order, then the three selection stages, each interrupted
+    arbitrarily *)
 Theorem C01_from_deployment_gt : forall (H : list N -> list N) v v2 w0 lf wf ef bf w1 ls ws es bs w2 sd rest ld wd ed bd w3,
   guar v -> setup_reach_gt H v w0 ->
   after_interrupted filter_tickets lf w0 = Some wf -> filter_tickets ef bf wf = Ok (w1, 0) ->
@@ -275,6 +277,14 @@ Proof. exact deployed_pipeline_gt. Qed.
 
 Example C01_setup_gt_nonvacuous : setup_reach_gt sha256 Gt2 gt2_confirmed.
 Proof. exact gt2_confirmed_reachable. Qed.
+
+(** ... and so is a history in which a guarantee holder is blacklisted and restored and another
+    participant refunded *)
+Example C01_setup_gt_blacklist_nonvacuous :
+  setup_reach_gt sha256 Gt2 gt2_bl_history /\
+  (gt_users (st gt2_bl_history), nr_winning (st gt2_bl_history), total_guaranteed (st gt2_bl_history),
+   blacklisted (st gt2_bl_history) 3, blacklisted (st gt2_bl_history) 4) = ([2; 3], 1, 2, false, true).
+Proof. exact gt2_bl_history_reachable. Qed.
 
 (** the concrete history of [Examples] (deployment, allocation of 3 + 2, deposit, two confirmations,
     each an [exec] transaction) is such a set-up history *)
@@ -357,6 +367,7 @@ Print Assumptions C01_from_deployment.
 Print Assumptions C01_setup_nonvacuous.
 Print Assumptions C01_from_deployment_gt.
 Print Assumptions C01_setup_gt_nonvacuous.
+Print Assumptions C01_setup_gt_blacklist_nonvacuous.
 Print Assumptions C01_pipeline_nonvacuous.
 Print Assumptions C01_claim_nonvacuous.
 Print Assumptions C01_nonvacuous.
